@@ -551,6 +551,9 @@ def run_api_case(case, drv):
         if kind == "oupdate":
             if rec.root.find("block") or rec.root.find("bare_block"):
                 _replay_block_update(rec, args, res, drv, k, tags)
+                if len(list(res.root.subtrees("omega"))) > len(list(rec.root.subtrees("omega"))) and c04.block_named_xn(rec):
+                    call_classes.append({"cls": "omega-block-repeat-split-comment",
+                                         "what": f"OmegaRecord.update splits a (v)xn node of {str(rec.root)!r} that is followed by a name comment"})
             else:
                 if drv is not None:
                     c04.k_diag_update(rec, args, res, drv, k, "update_random_variable_records -> ")
@@ -725,6 +728,8 @@ def classify_api(ctx, s1, s2, what, ed):
             return "omega-join-inside-diag-record"
         if "omega-diag-remove-last-item" in names and what.startswith("unreadable"):
             return "omega-diag-remove-last-item"
+        if "omega-block-repeat-split-comment" in names and what in ("etas", "epsilons"):
+            return "omega-block-repeat-split-comment"
         if "omega-diag-repeat-split" in names and what in ("etas", "epsilons", "omegas"):
             if ctx.get("diag_xn_named") and what != "omegas":
                 return "omega-diag-repeat-split-comment"
@@ -737,10 +742,11 @@ def classify_api(ctx, s1, s2, what, ed):
             return "theta-remove-comment-kept"
         return "api-theta-readback"
     if what.startswith("unreadable"):
-        return "api-code-unreadable:" + "+".join(ops)
+        return "api-code-unreadable"
     if what.startswith("internal"):
-        return f"api-{what}:{ed[0]}"
-    return f"api-{what}-readback:" + "+".join(ops)
+        return f"api-{what}"
+    # the class is the kind of difference, never the mix of edits (that is in the message)
+    return f"api-{what}-readback"
 
 
 def _adjacent(f):
